@@ -205,8 +205,11 @@ type cachedAgg struct {
 	tail, head time.Time
 }
 
+// Valid reports whether the records written between head (the first one) and
+// tail (the last one) all lie inside the cached window. (c.tail is the start
+// of the cached window and c.head its end.)
 func (c *cachedAgg) Valid(tail, head time.Time) bool {
-	return tail.Unix() >= c.tail.Unix() && head.Unix() <= c.head.Unix()
+	return head.Unix() >= c.tail.Unix() && tail.Unix() <= c.head.Unix()
 }
 
 func (s *OnDiskAggTrigger) writeAggregates(
